@@ -186,13 +186,14 @@ def run_method(chooser, op, profile=None, pre_ops=()):
 
 
 def _method_job(args):
-    op, bound = args
+    op, bound = args[0], args[1]
+    pre_ops = tuple(args[2]) if len(args) > 2 else ()      # healthy operations executed first
     part = core.Part()
     stats = Stats()
     baseline = {}
 
     def run(chooser):
-        viols, obs, snap, failing, port = run_method(chooser, op)
+        viols, obs, snap, failing, port = run_method(chooser, op, pre_ops=pre_ops)
         if not chooser.deviations():
             baseline["obs"] = (obs, snap)
             if obs[1] is not None or obs[2] is not None:
@@ -215,6 +216,7 @@ def _method_job(args):
             part.count("failing_deviation_executions")
         for key, msg in viols:
             part.violation(key, msg, {"kind": "method", "op": [op[0], op[1], list(op[2])],
+                                      "pre_ops": [[o[0], o[1], list(o[2])] for o in pre_ops],
                                       "vector": chooser.vector()})
         part.add("states", core.digest((obs[:4], snap)))
         if chooser.deviations():
@@ -224,7 +226,7 @@ def _method_job(args):
                              "observed": list(obs)})
         return core.digest(obs)
 
-    explore(run, bound, stats)
+    explore(run, bound, stats, may_branch=lambda label: label.startswith("m:"))
     part.count("executions", stats.executions)
     part.count("transitions", stats.executions)
     part.count("method_executions", stats.executions)
@@ -311,6 +313,18 @@ def run(ctx):
     pair_ops = [op for op in ops if op[1] not in ("reboot", "bootload")]
     pair_bound = ctx.pick(2, 3)
     jobs += [("pair", ((a, b), pair_bound)) for a, b in itertools.product(pair_ops, repeat=2)]
+    if ctx.thorough:
+        # (b') every method after one healthy operation (state left behind by another request)
+        pre_names = ("motors_enable", "var_write", "write_nickname", "pen_lower", "query",
+                     "timed_pause", "query_statusbyte")
+        pres = [next(op for op in ops if op[1] == name) for name in pre_names]
+        jobs += [("method", (op, 2, (pre,))) for pre in pres for op in ops]
+        # (c') all ordered triples over one representative call per method
+        reps = []
+        for op in pair_ops:
+            if op[1] not in {r[1] for r in reps}:
+                reps.append(op)
+        jobs += [("pair", (trio, 1)) for trio in itertools.product(reps, repeat=3)]
     part = core.fan_out(ctx, _dispatch, jobs)
     cnt = part.counters
     execs = cnt.get("executions", 0)
@@ -323,8 +337,12 @@ def run(ctx):
         "rule": "(a) command/query x 14 request strings x all environment vectors with <= "
                 f"{prim_bound} deviations; (b) {len(ops)} request-method calls (introspected) x "
                 f"all vectors with <= {meth_bound} deviations; (c) all ordered pairs of request "
-                "methods x per-reply latencies in {0,1,25}; non-trivial = executions with at "
-                "least one deviation from the prompt conforming answer",
+                "methods x per-reply latencies in {0,1,25}" +
+                ("; thorough: every method after each of 7 healthy operations (<= 2 deviations) "
+                 "and all ordered triples of one call per method (<= 1 deviation)"
+                 if ctx.thorough else "") +
+                "; non-trivial = executions with at least one deviation from the prompt "
+                "conforming answer",
         "samples": core.rotate(part.samples, ctx.seed, 4),
         "primitive_executions": cnt.get("prim_executions", 0),
         "method_executions": cnt.get("method_executions", 0),
@@ -356,8 +374,11 @@ def replay(case):
         return [m for _k, m in viols]
     if case["kind"] == "method":
         op = (case["op"][0], case["op"][1], tuple(case["op"][2]))
-        base = run_method(__import__("mc.explore", fromlist=["Chooser"]).Chooser([]), op)
-        (viols, obs, snap, failing, port), chooser = run_vector(lambda ch: run_method(ch, op), vector)
+        pre_ops = tuple((o[0], o[1], tuple(o[2])) for o in case.get("pre_ops", ()))
+        base = run_method(__import__("mc.explore", fromlist=["Chooser"]).Chooser([]), op,
+                          pre_ops=pre_ops)
+        (viols, obs, snap, failing, port), chooser = run_vector(
+            lambda ch: run_method(ch, op, pre_ops=pre_ops), vector)
         msgs = [m for _k, m in viols]
         if chooser.deviations() and not failing and (obs, snap) != (base[1], base[2]):
             msgs.append(f"{op[0]} with tolerated latencies {port.faults} gave {(obs, snap)!r}, "
